@@ -434,7 +434,8 @@ class Check:
         replay_path = None
         if unl_oracle or broken or unl_corr:
             rc = 1
-            replay_path = os.path.join(VERIF, "replays", "%s-%s-%d.json" % (self.pid, self.tier, self.seed))
+            rsuffix = "" if self.repo == "/repo" else "-" + hashlib.sha1(self.repo.encode()).hexdigest()[:8]
+            replay_path = os.path.join(VERIF, "replays", "%s-%s-%d%s.json" % (self.pid, self.tier, self.seed, rsuffix))
             rep = {"property": self.pid, "tier": self.tier, "seed": self.seed, "repo": self.repo,
                    "replay_cmd": "VERIF_SEED=%d bin/check %s --tier %s" % (self.seed, self.pid, self.tier)}
             if unl_oracle:
